@@ -35,6 +35,18 @@ FLOOR = 14
 CLS = "skmatter.clustering.QuickShift"
 
 
+def _alts(ctx, names, *args, assume=None):
+    """the equivalent spellings of a reference algorithm (ref/quickshift_ref.py), interpreted on the same inputs"""
+    out = []
+    for nm in names:
+        try:
+            I2, s2 = (ctx.interp(assume=assume) if assume is not None else ctx.interp()), State()
+            out.append(ctx.call_func(I2, s2, "ref.quickshift_ref." + nm, *args))
+        except Exception:
+            out.append(None)
+    return out
+
+
 def check(ctx):
     P = ctx.P
     N = ctx.normalizer()
@@ -47,7 +59,7 @@ def check(ctx):
     r = ctx.call_func(I, st, f, d2)
     I2, s2 = ctx.interp(), State()
     ref = ctx.call_func(I2, s2, "ref.quickshift_ref.gabriel_graph", d2)
-    ctx.compare("NF-GABRIEL", "_get_gabriel_graph == brute-force definition (strict, symmetric, no self loops)", N, r, ref, ctx.site(f))
+    ctx.compare("NF-GABRIEL", "_get_gabriel_graph == brute-force definition (strict, symmetric, no self loops)", N, r, ref, ctx.site(f), alternatives=_alts(ctx, ("gabriel_graph_diag_first", "gabriel_graph_rowwise", "gabriel_graph_by_witness"), d2))
     ctx.no_shape_conflicts("Shape", "_get_gabriel_graph", I, 0, ctx.site(f))
     # ---- steps ------------------------------------------------------------------------------
     i, nn, cut = index("i", "n"), index("nn", "n"), scalar("cutoff", 0, None)
@@ -56,14 +68,14 @@ def check(ctx):
     r = ctx.call_method(I, st, o, "_qs_next", i, nn, probs, d2, cut)
     I2, s2 = ctx.interp(), State()
     ref = ctx.call_func(I2, s2, "ref.quickshift_ref.qs_next", i, nn, probs, d2, cut)
-    ctx.compare("R-POINTCONSISTENT", "_qs_next == reference step", N, r, ref, ctx.site(P.method(cls, "_qs_next")))
+    ctx.compare("R-POINTCONSISTENT", "_qs_next == reference step", N, r, ref, ctx.site(P.method(cls, "_qs_next")), alternatives=_alts(ctx, ("qs_next_sorted_scan",), i, nn, probs, d2, cut))
     gab = arr("gabriel", "n", "n", inp=False, dtype="bool")
     I, st = ctx.interp(), State()
     o = ctx.bare_object(I, st, cls, {"gabriel_shell": integer("shell")})
     r = ctx.call_method(I, st, o, "_gs_next", i, probs, d2, gab)
     I2, s2 = ctx.interp(), State()
     ref = ctx.call_func(I2, s2, "ref.quickshift_ref.gs_next", i, probs, d2, gab, integer("shell"))
-    ctx.compare("R-POINTCONSISTENT", "_gs_next == reference step", N, r, ref, ctx.site(P.method(cls, "_gs_next")))
+    ctx.compare("R-POINTCONSISTENT", "_gs_next == reference step", N, r, ref, ctx.site(P.method(cls, "_gs_next")), alternatives=_alts(ctx, ("gs_next_frontier",), i, probs, d2, gab, integer("shell")))
     # ---- fit in the three configurations ------------------------------------------------------
     site = ctx.site(P.method(cls, "fit"))
     for mode in ("cutoff", "gabriel", "both"):
@@ -149,7 +161,8 @@ def check(ctx):
 
                 I2, s2 = ctx.interp(assume=protocols.assume_default), State()
                 ref = ctx.call_func(I2, s2, "ref.quickshift_ref.ascent_labels", integer("N"), V("func", T("step"), func=("builtin", step, "step")))
-                ctx.compare("R-ASCENT", f"labels_: every point of a path receives the root of the point the path ran into [{cfg}]", N, lab, ref, site, cfg)
+                stepv = V("func", T("step"), func=("builtin", step, "step"))
+                ctx.compare("R-ASCENT", f"labels_: every point of a path receives the root of the point the path ran into [{cfg}]", N, lab, ref, site, cfg, alternatives=_alts(ctx, ("ascent_labels_carried", "ascent_labels_pointer_jumping"), integer("N"), stepv, assume=protocols.assume_default))
             # labels / centres
             I2, s2 = ctx.interp(), State()
             ref = ctx.call_func(I2, s2, "ref.quickshift_ref.centres", X, lab)
